@@ -31,8 +31,12 @@ def _literal(expr):
     return None
 
 
-def round_prog(flow_configs, classify):
-    """expanded flow configs -> (RProg as JSON-able list, {flow_id: index}, reason the program is outside the model | None)"""
+def round_prog(flow_configs, classify, err_ext=False):
+    """expanded flow configs -> (RProg as JSON-able list, {flow_id: index}, reason the program is outside the model | None)
+
+    err_ext: PHASED reading of a round for programs with flows that react to `ColangError` (phase 5): a `match ColangError` is an
+    `ext` wait and the round is cut into phases at every pop of a ColangError event — each phase is a run of the machine from the
+    snapshot of the state at that pop (heads parked on ColangError are `xhead`s there: the popped event may wake them once)."""
     from nemoguardrails.colang.v2_x.lang import colang_ast as A
 
     idx = {fid: i for i, fid in enumerate(flow_configs)}
@@ -104,6 +108,8 @@ def round_prog(flow_configs, classify):
                         w = "ext"
                         if spec.name in INTERNAL:
                             w = "tagged" if isinstance(e.info, dict) and "internal" in e.info else "int"
+                        if err_ext and spec.name == "ColangError":
+                            w = "ext"
             emit.append(em)
             wk.append(w)
         P.append({"ctl": ctl, "emit": emit, "wk": wk, "restartable": False, "catchAt": catch_at(ctl), "_id": fid})
@@ -325,7 +331,7 @@ class Potential:
 # ----------------------------------------------------------------------------- recorder
 
 class Round:
-    def __init__(self, P, idx, pot, sm, state, event):
+    def __init__(self, P, idx, pot, sm, state, event, queued=()):
         self.P, self.idx, self.pot, self.sm = P, idx, pot, sm
         self.steps, self.orphans = [], []
         self.tok, self.inst = {}, {}
@@ -336,6 +342,8 @@ class Round:
         name = getattr(event, "name", None) or (event.get("type") if isinstance(event, dict) else None)
         args = getattr(event, "arguments", None) or (event if isinstance(event, dict) else {})
         T = [["ev", self.kind(name, args)]]
+        # a phase that begins in the middle of a round (pop of a ColangError): the events still queued are tokens of the snapshot
+        T += [["ev", self.kind(e.name, e.arguments)] for e in queued]
         FS = sm.FlowStatus
         for fs in state.flow_states.values():
             if fs.flow_id not in idx or fs.status not in (FS.WAITING, FS.STARTING, FS.STARTED):
